@@ -492,7 +492,7 @@ func checkMain(args []string) int {
 			if tier == "thorough" {
 				jobs[i].Timeout = 300000
 			} else {
-				jobs[i].Timeout = 120000
+				jobs[i].Timeout = 90000
 			}
 		}
 	}
